@@ -202,7 +202,7 @@ def agree_dict(cx, got, v, path, node=None):
             agree(cx, got[key], val, f'{path}[{key:#x}]')
         else:
             signed = key - (1 << v.n) if key >> (v.n - 1) else key
-            if signed in got:           # keys delivered as signed integers (config parameters)
+            if signed in got and path.endswith('.config'):      # ConfigParams delivers its int32 parameter ids as signed integers
                 agree(cx, got[signed], val, f'{path}[{signed}]')
             else:
                 cx.claim(f'{path}: key {key:#x} present', False)
